@@ -364,7 +364,10 @@ class Job:
                 r, m = 'sat', E.rand.model(wi)
                 res['precheck_sat'] = res.get('precheck_sat', 0) + 1
             else:
+                _t = time.time()
                 r, m = E.solver.check(base + [bad], timeout_s=timeout_s)
+                if os.environ.get('VERIF_DEBUG'):
+                    print('  [%s] %s cone=%d %.2fs' % (r, label, len(d.cone(base + [bad])), time.time() - _t), flush=True)
             if r == 'unsat':
                 res['discharged'] += 1
             elif r == 'sat':
